@@ -314,7 +314,7 @@ class World:
         "overwrite", "overwrite-other-kind", "torn-file-load", "text-roundtrip", "dict-roundtrip", "op-constant-term",
         "op-empty-sum", "op-complex", "op-big-index", "op-unsimplified", "op-exact-compared", "expvals-complex", "frames-none",
         "frames-empty", "frames-many", "measurements-empty", "precision-none", "precision-numpy", "nmeas-without-frames",
-        "via-bytes", "via-pathlike",
+        "via-bytes", "via-pathlike", "external-write",
     ] + [f"kind-{k}" for k in KINDS]
 
     # ------------------------------------------------------------ generation
@@ -369,8 +369,12 @@ class World:
                 if kind == "operator" and prev and r.random() < 0.3:
                     val = perturb(r, r.choice(prev))
                 s = {"op": "dict_roundtrip", "args": {"kind": kind, "value": val, "json": r.choice(["std", "rapid", "none"])}}
-            else:
+            elif k < 0.95:
                 s = {"op": "text_roundtrip", "args": {"value": rand_operator(r)}}
+            else:
+                kind = r.choice(["operator", "operator_set"])
+                s = {"op": "write_text", "args": {"kind": kind, "value": rand_value(r, kind), "path": path, "indent": r.choice([None, 0, 2]),
+                                                  "json": r.choice(["std", "rapid"])}}
             steps.append(s)
         for s in steps:
             s["client"] = r.randrange(cfg["clients"])
@@ -619,6 +623,15 @@ class World:
                 ctx.nontrivial = True
             return
         P, OI, U, L, EV, PA = st["P"], st["OI"], st["U"], st["L"], st["EV"], st["PA"]
+        if op == "write_text":
+            import rapidjson
+
+            mod = json if a["json"] == "std" else rapidjson
+            d = OI.convert_op_to_dict(obj) if kind == "operator" else {"operators": [OI.convert_op_to_dict(o) for o in obj]}
+            text = mod.dumps(d, indent=a["indent"]) if a["indent"] is not None else mod.dumps(d)
+            store.external_write(ctx, kind, value, a["path"], text)
+            ctx.nontrivial = True
+            return
         if op == "dict_roundtrip":
             ctx.probe("dict-roundtrip")
             to_d, from_d = {
